@@ -15,10 +15,9 @@ META = {
                   'the library never reads or writes the storage, so "never touched" is address arithmetic (proved) plus guard bytes under ASan (sampled).',
     'design_ref': '§6 C10',
 }
-REQUIRED_FINAL = ['Librfn.C10.history_refines', 'Librfn.C10.history_refines_init', 'Librfn.C10.claim_spec', 'Librfn.C10.receive_spec',
-                  'Librfn.C10.empty_iff_receive_null', 'Librfn.C10.outstanding_ranges_disjoint', 'Librfn.C10.slack_untouched',
-                  'Librfn.C10.bit31_is_a_flag', 'Librfn.C10.init_eq_static']
-REQUIRED = ['Librfn.C10.init_eq_static']      # milestone 1: correspondence only; the refinement proof lands in milestone 3
+REQUIRED = ['Librfn.C10.history_refines', 'Librfn.C10.history_refines_init', 'Librfn.C10.rel_after', 'Librfn.C10.claim_spec', 'Librfn.C10.receive_spec',
+            'Librfn.C10.empty_iff_receive_null', 'Librfn.C10.outstanding_ranges_disjoint', 'Librfn.C10.cyclic', 'Librfn.C10.slack_untouched',
+            'Librfn.C10.bit31_is_a_flag', 'Librfn.C10.init_eq_static']
 SIZES = [1, 2, 3, 4, 7, 8, 12, 255, 4096]
 
 
@@ -241,12 +240,12 @@ def run(ctx):
     quick = ctx.tier == 'quick'
     hs = corpus()
     ncorpus = len(hs)
-    for (d, m, k) in geometries(rng, 76 if quick else 1500):
+    for (d, m, k) in geometries(rng, 76 if quick else 8000):
         nops = rng.choice([12, 40, 40, 6 * d + 20, 8 * d + 40])
         hs.append(gen_history(rng, d, m, k, nops, probe_every=rng.chance(1, 2)))
     nexh = 0
     if not quick:
-        for (d, m, k, L) in [(1, 3, 2, 8), (2, 7, 0, 7), (3, 4, 1, 6), (32, 1, 0, 3)]:
+        for (d, m, k, L) in [(1, 3, 2, 10), (2, 7, 0, 8), (3, 4, 1, 7), (32, 1, 0, 4)]:
             e = exhaustive(d, m, k, L); nexh += len(e); hs += e
     bad = [h for h in hs if not valid(h)]
     if bad:
@@ -277,7 +276,7 @@ def run(ctx):
     ctx.cov['depth32_histories_reaching_bit31'] = b31
     ctx.cov['null_results_in_first_200'] = so.count('NULL')
     if nexh:
-        ctx.cov['exhaustive'] = f'{nexh} histories: every in-scope op list up to 8/7/6/3 ops on geometries (1,3,2) (2,7,0) (3,4,1) (32,1,0)'
+        ctx.cov['exhaustive'] = f'{nexh} histories: every in-scope op list up to 10/8/7/4 ops on geometries (1,3,2) (2,7,0) (3,4,1) (32,1,0)'
     ctx.sample({'history_prefix': hs[ncorpus][:10], 'length': len(hs[ncorpus])})
     ctx.sample({'history_prefix': hs[-1][:10], 'length': len(hs[-1])})
     ctx.cov['rule'] = ('geometries depth 1..32 x sizes {1,2,3,4,7,8,12,255,4096,..} x slack {0,1,size-1,random}; histories of claim/send/receive/release in four shapes '
